@@ -210,6 +210,11 @@ func body(c config, ctx *hk.Ctx) {
 	if !c.FailW0 {
 		icpt.UnbindLocalStream(infos[2])
 		icpt.UnbindLocalStream(infos[1])
+		// the remaining stream is replaced: a new binding of the same SSRC is made, then the old binding is
+		// unbound; the new binding is a bound stream that negotiated the extension
+		repl := *infos[0]
+		ws[0] = icpt.BindLocalStream(&repl, &sink{stream: 0, got: &out})
+		icpt.UnbindLocalStream(infos[0])
 		for k := 0; k < 2; k++ {
 			// ... an RTX and a FEC packet of the stream (every packet on a stream that negotiated the extension leaves with it)
 			h := rtp.Header{Version: 2, PayloadType: 96, SequenceNumber: uint16(9000 + k), SSRC: []uint32{0x5E00, 0x5F00}[k]}
